@@ -64,6 +64,9 @@ FastqBigShapes == <<
   FqRec("acgt000000","",      "ACGTN",  <<QPLUS,32,34,38,32>>,       TRUE,  "LF"),
   FqRec("e000000",  "w",      "tacg",   <<QAT,30,QPLUS,5>>,          FALSE, "CRLF"),
   FqRec("g000000",  "",       "a",      <<QPLUS>>,                   FALSE, "LF"),
-  FqRec("h000000",  "",       "c",      <<QAT>>,                     TRUE,  "CRLF")
+  FqRec("h000000",  "",       "c",      <<QAT>>,                     TRUE,  "CRLF"),
+  (* a long read (5 040 bases on one line): alone it is longer than what a format sniffer may look at *)
+  FqRec("l000000",  "long",   Rep("acgtgcatgactagctagcatgcatgcaacgttgca", 140),
+                              [k \in 1..5040 |-> IF k % 13 = 0 THEN QAT ELSE IF k % 17 = 0 THEN QPLUS ELSE 10 + (k % 30)], FALSE, "LF")
 >>
 =============================================================================
